@@ -46,7 +46,7 @@ def run(ctx):
             ctx.corr_broken.append("model Wire and messages.go disagree on case %d (%s): %s" %
                                    (m, c.get("kind"), json.dumps(c.get("in"))[:700]))
     need = ["read:ok", "read:eof", "read:unexpected-eof", "read:other", "read:wellformed-caps-only",
-            "read:wellformed-shorter-than-37", "update:error", "update:nh16", "withdraw:815-prefix-case", "open", "keepalive",
+            "read:wellformed-shorter-than-37", "update:error", "update:nh16", "withdraw:815-prefix-case", "read:asn-field-vs-capability", "open", "keepalive",
             "sess:cap-flip-on-off", "sess:cap-flip-off-on", "sess:capflip-ebgp-updates-after-flip", "sess:hold=0", "sess:hold=nil", "sess:source-address-16-byte-form", "sess:source-address-4-byte-form", "sess:open-after-reconnect-checked"] + \
            ["update:len%%8=%d" % k for k in range(8)]
     # a counter that is zero BECAUSE the implementation misbehaves must not mask the finding:
